@@ -193,6 +193,54 @@ class Raises:
         self.memo[key] = res
         return res
 
+    def attr_positive(self, cls: ClassInfo, attr: str) -> bool:
+        """Every store to self.<attr> in the class family provably stores a number > 0 (a constant, or a value the storing method has
+        validated: `if not 0 < seconds < inf: raise`), and nothing outside the class assigns the attribute: the attribute is a positive
+        number wherever it is read."""
+        key = (cls.qual, attr)
+        cache = self.__dict__.setdefault("_attr_positive", {})
+        if key in cache:
+            return cache[key]
+        cache[key] = False
+        from .facts import provable
+        from .terms import summarize
+        fam = [k for k in self.prog.mro(cls) + self.prog.subclasses(cls) if k.module.name.startswith("msmart")]
+        n_stores, ok = 0, True
+        for m in self.prog.modules.values():
+            if m.is_test:
+                continue
+            for n in ast.walk(m.tree):
+                if isinstance(n, ast.Attribute) and n.attr == attr and isinstance(n.ctx, (ast.Store, ast.Del)) and not (isinstance(n.value, ast.Name) and n.value.id in ("self", "cls")):
+                    ok = False          # (assigned through another object: not a class invariant)
+        for k in fam:
+            for f in list(k.methods.values()) + list(k.props_set.values()):
+                stores = [n for n in ast.walk(f.node) if isinstance(n, (ast.Assign, ast.AugAssign, ast.AnnAssign))
+                          and any(isinstance(t, ast.Attribute) and t.attr == attr and isinstance(t.value, ast.Name) and f.params and t.value.id == f.params[0]
+                                  for t in (n.targets if isinstance(n, ast.Assign) else [n.target]))]
+                if not stores:
+                    continue
+                if any(not isinstance(n, ast.Assign) for n in stores):
+                    ok = False
+                    continue
+                try:
+                    fs = summarize(self.prog, f)
+                except AnalysisError:
+                    ok = False
+                    continue
+                for n in stores:
+                    n_stores += 1
+                    st_ = fs.ta.env_at.get(n)
+                    v = fs.ta.terms_at.get(n.value)
+                    if st_ is None or v is None:
+                        ok = False
+                        continue
+                    try:
+                        ok = ok and provable(("cmp", ">", v, ("const", 0)), st_.pc, None, self.prog)
+                    except Exception:
+                        ok = False
+        cache[key] = bool(ok and n_stores)
+        return cache[key]
+
     def queue_items(self, cls: ClassInfo, attr: str) -> Val:
         """Abstract value of the items a class's producer callbacks put on self.<attr> (taint + length facts)."""
         key = (cls.qual, attr)
@@ -594,6 +642,9 @@ class FnAnalysis(Analysis):
                 a, b = self.val(test.left, st), self.val(test.comparators[0], st)
             finally:
                 self.pending = saved
+            for x_, y_ in ((a, b), (b, a)):
+                if y_.cv == 0 and y_.cv is not False and x_.ilb is not None and x_.ilb >= 1 and not x_.taint and isinstance(test.ops[0], (ast.Eq, ast.NotEq)):
+                    return isinstance(test.ops[0], ast.NotEq)          # a positive number is not 0
             if a.cv is not Val.NOCV and b.cv is not Val.NOCV and not a.taint and not b.taint:
                 op = test.ops[0]
                 try:
@@ -1116,6 +1167,9 @@ class FnAnalysis(Analysis):
             for k2 in self.prog.mro(self.self_cls):
                 if (k2.qual, e.attr) in self.R.cfg.self_attr_vals:
                     return self.R.cfg.self_attr_vals[(k2.qual, e.attr)]
+        if self.recv and isinstance(e.value, ast.Name) and e.value.id == self.recv and self.self_cls is not None and isinstance(e.ctx, ast.Load) \
+                and self.R.attr_positive(self.self_cls, e.attr):
+            return Val(kind="float", ilb=1)          # (ilb=1 on a float reads "strictly positive": only comparisons with 0 consult it)
         # class attribute / nested class
         if base.kind == "cls" and base.classes:
             out = set()
